@@ -795,8 +795,23 @@ fn emit_body<'tcx>(
                 if full || matches!(t.kind, TerminatorKind::Call { .. } | TerminatorKind::TailCall { .. }) {
                     let (_f, l) = span_loc(tcx, t.source_info.span);
                     let s = cx.terminator(t);
+                    // branches written by a macro carry the chain of macro names, innermost first (`cfg>debug_assert`)
+                    let mac = if matches!(t.kind, TerminatorKind::SwitchInt { .. }) && t.source_info.span.from_expansion() {
+                        let names: Vec<String> = t
+                            .source_info
+                            .span
+                            .macro_backtrace()
+                            .map(|e| match e.kind {
+                                rustc_span::ExpnKind::Macro(_, name) => name.to_string(),
+                                _ => "-".to_string(),
+                            })
+                            .collect();
+                        format!(",\"mac\":{}", js(&names.join(">")))
+                    } else {
+                        String::new()
+                    };
                     // append line
-                    format!("{},\"l\":{}}}", &s[..s.len() - 1], l)
+                    format!("{}{},\"l\":{}}}", &s[..s.len() - 1], mac, l)
                 } else {
                     "{\"k\":\"x\"}".to_string()
                 }
